@@ -186,13 +186,6 @@ Qed.
 (* ------------------------------------------------------------------ languages *)
 Definition planguage (t : ttree) : list nat -> Prop := lang (p_re (compile t)).
 
-(* concatenation of one word from each language of the list *)
-Fixpoint lcat (Ls : list (list nat -> Prop)) (w : list nat) : Prop :=
-  match Ls with
-  | [] => w = []
-  | L :: Ls' => exists u v, w = u ++ v /\ L u /\ lcat Ls' v
-  end.
-
 Lemma lang_seq_map ps w : lang (seq_re (map p_re ps)) w <-> lcat (map (fun p => lang (p_re p)) ps) w.
 Proof.
   revert w. induction ps as [|p ps IH]; intros w; cbn; [tauto|]. fold (seq_re (map p_re ps)).
@@ -243,26 +236,6 @@ Proof.
   intros Hok. unfold t_expr. cbn [p_re lang].
   split; intros (k & Hk & H); exists k; (split; [apply (quant_ok_top op k Hok); exact Hk|exact H]).
 Qed.
-
-(* the documented meaning of a terminal definition *)
-Fixpoint tden (t : ttree) (w : list nat) : Prop :=
-  match t with
-  | TStr s => w = codes s
-  | TRange a b => exists c, w = [c] /\ nat_of_ascii a <= c <= nat_of_ascii b
-  | TCls neg rs => exists c, w = [c] /\ cls_mem neg (map arange rs) c = true
-  | TDot => exists c, w = [c] /\ c <> NEWLINE
-  | TSeq l => lcat (map tden l) w
-  | TAlt l => (fix any (l : list ttree) : Prop := match l with [] => False | x :: l' => tden x w \/ any l' end) l
-  | TOp t' op => exists k, top_ok op k /\ rpow (tden t') k w
-  end.
-
-Fixpoint tt_ok (t : ttree) : bool :=
-  match t with
-  | TSeq l => forallb tt_ok l
-  | TAlt l => negb (match l with [] => true | _ => false end) && forallb tt_ok l
-  | TOp t' op => op_ok op && tt_ok t'
-  | _ => true
-  end.
 
 Lemma lcat_ext Ls Ls' : Forall2 (fun L L' => forall w, L w <-> L' w) Ls Ls' -> forall w, lcat Ls w <-> lcat Ls' w.
 Proof.
@@ -319,3 +292,14 @@ Proof. intros H E. apply compile_lang; [exact H|]. now apply bt_match_sound. Qed
 Corollary compile_match_none t s : tt_ok t = true ->
   bt_match (p_re (compile t)) s = None -> forall n, ~ tden t (firstn n s).
 Proof. intros H E n Hn. apply (bt_match_none _ _ E n). now apply compile_lang. Qed.
+
+(* the operators inside a terminal, stated on the executable Python-order matcher *)
+Theorem compile_op_fullmatch x op w : op_ok op = true ->
+  (bt_fullmatch (p_re (compile (TOp x op))) w = true <->
+   exists k, top_ok op k /\ rpow (fun u => bt_fullmatch (p_re (compile x)) u = true) k w).
+Proof.
+  intros Hok. rewrite bt_fullmatch_iff. cbn [compile]. rewrite lang_expr by exact Hok.
+  split; intros (k & Hk & H); exists k; (split; [exact Hk|]).
+  - exact (proj1 (rpow_ext _ _ (fun u => iff_sym (bt_fullmatch_iff (p_re (compile x)) u)) k w) H).
+  - exact (proj2 (rpow_ext _ _ (fun u => iff_sym (bt_fullmatch_iff (p_re (compile x)) u)) k w) H).
+Qed.
